@@ -26,6 +26,9 @@ type Violation struct {
 	Confirmed string          `json:"confirmed,omitempty"`
 	GoTest    string          `json:"go_test,omitempty"`
 
+	// GoTestFn renders GoTest lazily (only for violations that are written out).
+	GoTestFn func() string `json:"-"`
+
 	// Confirm re-executes the counterexample from scratch on a fresh real
 	// object and reports whether the same violation shows.
 	Confirm func() (bool, string) `json:"-"`
@@ -152,6 +155,20 @@ func (r *Report) Violation(v *Violation) {
 	}
 }
 
+// Skip counts an occurrence of sig and reports whether a counterexample with a
+// history of histLen operations could not improve on the one already kept (so
+// the caller can skip building it).
+func (r *Report) Skip(sig string, histLen int) bool {
+	r.mu.Lock()
+	defer r.mu.Unlock()
+	old, ok := r.bySig[sig]
+	if ok && len(old.History) <= histLen {
+		r.sigCount[sig]++
+		return true
+	}
+	return false
+}
+
 // HasViolation reports whether a violation with that signature was recorded.
 func (r *Report) HasViolation(sig string) bool {
 	r.mu.Lock()
@@ -224,6 +241,9 @@ func (r *Report) Finish() int {
 		}
 		nViol++
 		exit = 1
+		if v.GoTestFn != nil && v.GoTest == "" {
+			v.GoTest = v.GoTestFn()
+		}
 		path := r.writeReplay(v)
 		fmt.Printf("VIOLATION property=%s replay=%s\n", v.Property, path)
 		fmt.Printf("  signature: %s\n  %s\n  history: %v\n", v.Signature, v.Message, v.History)
